@@ -21,12 +21,22 @@ def close(a, b, rel=1e-9):
 # helpers: run structure
 
 
-def session_of_step(sim):
-    """list: step -> session (by configured lengths)."""
-    out = []
-    for s in sim.sessions:
-        out += [s] * s.iteration_steps
+def cfg_sessions(sim):
+    """[(start step, number of steps, session settings)] from the scenario's configuration (never from the Session objects)"""
+    out, start = [], 0
+    for s in sim._vf_cfg["simulation"]["sessions"]:
+        out.append((start, s["iterationSteps"], s))
+        start += s["iterationSteps"]
     return out
+
+
+def cfg_total_steps(sim):
+    return sum(n for _, n, _ in cfg_sessions(sim))
+
+
+def cfg_tick(sim, market_id):
+    """a market's tick size as configured"""
+    return sim._vf_cfg[sim.id2market[market_id].name]["tickSize"]
 
 
 def split_steps(w):
@@ -318,6 +328,29 @@ def acc_C01(w):
 
 
 # =================================================================================================
+# C02 (whole runs: within every matching round no order is filled while a higher-priority order of its side keeps volume)
+
+
+def acc_C02(w):
+    for e in w.ev:
+        if e[0] != "round" or not e[2]:
+            continue
+        pre = e[4]["pre"]
+        filled = PyCounter()
+        for l in e[2]:
+            filled[(True, l.buy_order_id)] += l.volume
+            filled[(False, l.sell_order_id)] += l.volume
+        for side in (True, False):
+            book = [(k, oid, vol) for (oid, is_buy, k, vol) in pre if is_buy == side]
+            got = [(k, oid) for (k, oid, vol) in book if filled[(side, oid)] > 0]
+            left = [(k, oid) for (k, oid, vol) in book if vol - filled[(side, oid)] > 0]
+            bad = [(x, y) for x in left for y in got if x[0] < y[0] and x[1] != y[1]]
+            V(not bad, "C02.priority", "an order received a fill while a higher-priority order on its side was left with unfilled volume",
+              "%s side: %s" % ("buy" if side else "sell", "; ".join("order %s (key %s) filled, order %s (key %s) keeps volume" % (y[1], y[0], x[1], x[0]) for x, y in bad[:2])))
+        w.wit.inc("whole_run_rounds_with_fills")
+
+
+# =================================================================================================
 # C10
 
 _REC_TYPES = (OrderLog, CancelLog, ExecutionLog, ExpirationLog)
@@ -371,7 +404,7 @@ def acc_C10(w):
             if gone:
                 truth.append(("E", e[1], e[2], tuple(sorted(o.order_id for o in gone))))
                 w.wit.inc("expiry_records", len(gone))
-                if e[2] == sum(s.iteration_steps for s in sim.sessions):
+                if e[2] == cfg_total_steps(sim):
                     w.wit.inc("expiry_at_final_clock_step")
             continue
         if k == "acc":
@@ -438,12 +471,14 @@ def acc_C10(w):
                 cnt[type(l).__name__] += 1
             elif isinstance(l, (SessionBeginLog, SessionEndLog)):
                 cnt[(type(l).__name__, l.session.session_id)] += 1
-    steps_total = sum(s.iteration_steps for s in sim.sessions)
+    steps_total = cfg_total_steps(sim)
     V(cnt["SimulationBeginLog"] == 1 and cnt["SimulationEndLog"] == 1, "C10.simulation_records",
       "not exactly one begin and one end record for the simulation")
-    for s in sim.sessions:
-        V(cnt[("SessionBeginLog", s.session_id)] == 1 and cnt[("SessionEndLog", s.session_id)] == 1,
-          "C10.session_records", "not exactly one begin and one end record for a session", "session %s" % s.session_id)
+    for sid in range(len(cfg_sessions(sim))):
+        V(cnt[("SessionBeginLog", sid)] == 1 and cnt[("SessionEndLog", sid)] == 1,
+          "C10.session_records", "not exactly one begin and one end record for a session", "session %s" % sid)
+    V(not [k for k in cnt if isinstance(k, tuple) and k[1] >= len(cfg_sessions(sim))], "C10.session_records",
+      "begin / end records for a session that is not configured")
     # step records: one begin + one end per (market, step), delivered synchronously
     pre, steps = split_steps(w)
     V(len(steps) >= steps_total, "C10.steps", "fewer steps than configured")
@@ -590,15 +625,25 @@ def acc_C13(w):
             for l in e[2]:
                 occ.append(("execution", False, l.time, e[1]))
                 w.wit.inc("fill_occurrences")
-    for s in sim.sessions:
-        occ += [("session", True, s.session_start_time, None), ("session", False, s.session_start_time + s.iteration_steps - 1, None)]
-        for t in range(s.session_start_time, s.session_start_time + s.iteration_steps):
+    for (s0, n_, _) in cfg_sessions(sim):
+        occ += [("session", True, s0, None), ("session", False, s0 + n_ - 1, None)]
+        for t in range(s0, s0 + n_):
             for m in sim.markets:
                 occ += [("market", True, t, m.market_id), ("market", False, t, m.market_id)]
     exp = PyCounter()
     for ev in sim.events:
-        specs = cfg[ev.name]["hooks"] if ev.name in cfg and "hooks" in cfg[ev.name] else []
-        for (ty, b, tm, flt) in specs:
+        specs = list(cfg[ev.name]["hooks"]) if ev.name in cfg and "hooks" in cfg[ev.name] else []
+        # specifications registered while the run was going on (their time lists name later steps only)
+        late = [e[2] for e in w.ev if e[0] == "late_registered" and e[1] == ev.event_id]
+        if late:
+            # only judged when every step they name lies after the step in which they were registered (otherwise some
+            # of the named occasions had already passed at that moment)
+            t_reg = max(x[2] for x in w.ev[:max(i for i, e in enumerate(w.ev) if e[0] == "late_registered")] if x[0] == "clock")
+            if any(tm is None or min(tm) <= t_reg for (_, _, tm, _) in late):
+                w.wit.inc("late_registration_not_judged")
+                return
+            w.wit.inc("hooks_registered_during_the_run", len(late))
+        for (ty, b, tm, flt) in specs + late:
             for o in occ:
                 if o[0] != ty or o[1] != b:
                     continue
@@ -635,7 +680,7 @@ def acc_C13(w):
         for e in w.ev:
             if e[0] == "acc" and id(e[3]) in altered:
                 p = altered[id(e[3])]
-                tick = sim.id2market[e[1]].tick_size
+                tick = cfg_tick(sim, e[1])
                 want = (math.floor(p / tick) if e[2].is_buy else math.ceil(p / tick)) * tick
                 V(e[2].price == want, "C13.alter", "a price written by a before-order hook is not the price that was accepted",
                   "written %s accepted %s expected %s" % (p, e[2].price, want))
